@@ -158,6 +158,11 @@ func (el *eventloop) cread(c *conn) error {
 
 		out, action := el.eventHandler.OnCReact(r, c)
 		if out != nil {
+			// the request is answered locally: fragments that were already handed to a backend
+			// (a multi-key request that could only be routed in part) must not complete it later
+			for _, f := range r.Body {
+				f.Done = true
+			}
 			// Encode data and try to write it back to the peer, this attempt is based on a fact:
 			// the peer socket waits for the response data after sending request data to the server,
 			// which makes the peer socket writable.
